@@ -105,7 +105,8 @@ def run_pairs(ctx: Ctx, kind: str, pairs: list[tuple[str, str]], pkg: str) -> No
         if kind == "properties":
             schemas[f"NsHolder{k}"] = {"type": "object", "required": [a], "properties": {a: {"type": "string"}, b: {"type": "integer"}}}
         elif kind == "enum_members":
-            schemas[f"NsEnum{k}"] = {"type": "string", "enum": [a, b]}
+            # plus a third value spelled like the name a de-duplicated member would get (ok / OK / ok_1)
+            schemas[f"NsEnum{k}"] = {"type": "string", "enum": [a, b] + ([f"{a}_1"] if f"{a}_1" not in (a, b) else [])}
         elif kind == "parameters":
             paths[f"/op{k + 1}/p"] = {"get": {"operationId": f"getP{k + 1}", "tags": ["params"], "parameters": [
                 {"name": a, "in": "query", "required": True, "schema": {"type": "string"}},
@@ -201,7 +202,7 @@ def run_pairs(ctx: Ctx, kind: str, pairs: list[tuple[str, str]], pkg: str) -> No
                     continue
                 members = entries[0]["members"]
                 vals = sorted(v for _, v in members)
-                if vals != sorted([a, b]):
+                if vals != sorted(schemas[f"NsEnum{k}"]["enum"]):
                     rec.violation("ns:enum_members:values_dropped_or_altered", feats, case, f"{members}")
                 for nm, _ in members:
                     if not ident_ok(nm):
